@@ -284,7 +284,11 @@ def writer_cases(draw):
           'shutdown_rate': shutdown_rate,
           'precreated': draw(st.lists(st.sampled_from(metrics), unique=True, max_size=5)),
           'switches': draw(c02.switch_lists(max_switches=8, max_gap=80)), 'first': draw(st.integers(0, 1)),
-          'end_wait': draw(st.sampled_from([2, 65]))}
+          'end_wait': draw(st.sampled_from([2, 65])),
+          # a backend that fails (full disk, permissions): failed create() / write() calls reach the backend too and
+          # are what the limits are there to pace
+          'faults': ({str(i): 'enospc' for i in range(draw(st.integers(0, 6)), 400, draw(st.sampled_from([1, 2, 3])))}
+                     if draw(st.integers(0, 3)) == 0 else {})}
 
 
 def execute_writer(ctx, case):
@@ -328,6 +332,7 @@ def execute_writer(ctx, case):
       if len(ts) >= bst + 2:
         nt = True
   ctx.note(case, nontrivial=nt, classes=['writer', 'ups=%s' % case['updates_per_second'], 'cpm=%s' % case['creates_per_minute']] +
+           (['failing backend calls'] if case.get('faults') else []) +
            (['limit change at stop'] if shut is not None else []))
 
 
